@@ -313,6 +313,11 @@ def clone_problems(root, copy, whole_netlist):
             for f in ("is_downto", "is_scalar", "lower_index"):
                 if getattr(a, f) != getattr(b, f):
                     out.append("%s.%s differs" % (path, f))
+            # the stored scalar flag is hidden by the is_scalar property while the bundle has several
+            # items, and shows as soon as both are trimmed to one item: compare what is stored
+            if a._is_scalar != b._is_scalar:
+                out.append("%s: stored scalar/array flag differs (original %s, copy %s): after trimming both to "
+                           "one item they report different array-ness" % (path, a._is_scalar, b._is_scalar))
         if isinstance(a, sdn.Port) and a.direction != b.direction:
             out.append("%s.direction differs" % path)
         if isinstance(a, sdn.Instance):
